@@ -47,5 +47,20 @@ Definition prop_roundtrip (c : case) : bool :=
   | CRoundtrip b o => if body_ok b then opt_eqb Bool.eqb o (Some true) else true
   | _ => true
   end.
+(* the value a body deserialises to lies in the domain of the round-trip theorem
+   (Envelope.wt_response): the theorem's hypothesis is met by everything the model produces *)
+Definition corr_wt (c : case) : bool :=
+  match c with
+  | CBody b _ | CRoundtrip b _ =>
+      match deser henv FUEL lib_items (RNamed "Response") b with
+      | Some v => wt_response v
+      | None => true
+      end
+  | CDisplay e _ =>
+      match deser henv FUEL lib_items (RNamed "Error") e with
+      | Some v => wt_error v
+      | None => true
+      end
+  end.
 Definition wellformed (c : case) : bool :=      (* how many cases exercise the property's hypothesis *)
   match c with CBody b _ | CRoundtrip b _ => body_ok b | CDisplay e _ => error_ok e end.
